@@ -205,9 +205,12 @@ theorem exit_status_table :
 /-- **C20.io.7** `exit_status_table`, part 2: when nothing in the world fails (`Healthy`), the status is
     the decision table's (`cli`, proved equal to the documented `spec` in C20.1): 2 for two formats,
     1 for `--pretty` without JSON / `--brief` with JSON alone / an unreadable file / an
-    unprocessable file outside `--dump`, else 0. -/
+    unprocessable file outside `--dump`, else 0 — and 1 for `--use-local-debuginfo` on a dump of a CPU
+    the debuginfo provider does not support (`localUnsupported`, outside `--dump`). -/
 theorem exit_status_healthy (hmd : cfg.helpMarkdown = false) (hw : Healthy cfg w) :
-    (run render cfg inp reps w).exit = exitOf cfg.flags inp := by
+    (run render cfg inp reps w).exit
+      = if exitOf cfg.flags inp = 0 ∧ cfg.flags.dump = false ∧ cfg.localUnsupported = true then 1
+        else exitOf cfg.flags inp := by
   rw [exitOf_eq]
   unfold run
   simp only [hmd, b2n, Bool.false_eq_true, if_false, Nat.add_zero]
@@ -227,17 +230,21 @@ theorem exit_status_healthy (hmd : cfg.helpMarkdown = false) (hw : Healthy cfg w
     rw [hlo]
     simp only
     split
-    · rfl
+    · simp
     · split
-      · rfl
+      · simp
       · have he := emitReports_healthy_exit render cfg inp reps (humanOn cfg.flags) (jsonOn cfg.flags) lg w0
           (by rw [hso]; exact hw.stdout)
           (fun hc => ⟨hreg _ (hw.cyborg hc).1, by rw [hlim]; exact (hw.cyborg hc).2⟩)
           (fun p hp => ⟨hreg _ (hw.output p hp).1, by rw [hlim]; exact (hw.output p hp).2⟩)
         cases inp with
         | unreadable => simp
-        | unprocessable => simpa using he
-        | ok => simpa using he
+        | unprocessable =>
+          simp only [he]
+          cases cfg.flags.dump <;> simp
+        | ok =>
+          simp only [he]
+          cases cfg.flags.dump <;> cases cfg.localUnsupported <;> simp
 
 /-- **C20.io.8 (finding D1)** `--cyborg <file that cannot take the JSON report>` (`/dev/full`, a full
     disk): the tool writes the COMPLETE human report to standard output and THEN exits with status 1
@@ -245,7 +252,7 @@ theorem exit_status_healthy (hmd : cfg.helpMarkdown = false) (hw : Healthy cfg w
     non-empty JSON report. -/
 theorem cyborg_write_failure_leaves_report
     (hg : groupCount cfg.flags ≤ 1) (hc : cfg.flags.cyborg = true) (hmd : cfg.helpMarkdown = false)
-    (hlog : cfg.logFile = none) (hout : cfg.outputFile = none)
+    (hlu : cfg.localUnsupported = false) (hlog : cfg.logFile = none) (hout : cfg.outputFile = none)
     (hfull : w.fs.entry cfg.cyborgPath = .full) (hj : (jsonRep cfg.flags reps).bytes ≠ [])
     (hs : w.stdout.cap = none) (he : w.stdout.out = [] ∧ w.stdout.buf = []) :
     (run render cfg .ok reps w).exit = 1 ∧
@@ -266,7 +273,7 @@ theorem cyborg_write_failure_leaves_report
   have hwt' : (w.stdout.write (humanRep cfg.flags reps)).1.out ++ (w.stdout.write (humanRep cfg.flags reps)).1.buf
       = (humanRep cfg.flags reps).bytes := by rw [hwt]; simp [he.1, he.2]
   simp only [run, hmd, b2n, hgn, hlog, openOpt, humanOn, jsonOn, hc, hd, hout, emitReports, openPrimary,
-    afterOpen, writeReports, writeJson, emitIf, emit_stdout, hwe, emitFile, hcreate,
+    afterOpen, writeReports, writeJson, emitIf, emit_stdout, hwe, emitFile, hcreate, hlu, doneThen,
     hwr _ hj, Bool.false_eq_true, if_false, if_true, Nat.add_zero, Bool.not_true, Bool.and_false,
     Bool.true_or, Bool.not_false]
   refine ⟨rfl, ?_, rfl⟩
@@ -279,6 +286,7 @@ theorem cyborg_write_failure_leaves_report
     longer than it — NOT "what standard output would" have received (the human report). -/
 theorem same_path_clobbers (p : Path)
     (hg : groupCount cfg.flags ≤ 1) (hc : cfg.flags.cyborg = true) (hmd : cfg.helpMarkdown = false)
+    (hlu : cfg.localUnsupported = false)
     (hlog : cfg.logFile = none) (hout : cfg.outputFile = some p) (hcp : cfg.cyborgPath = p)
     (hreg : Regular w.fs p) (hlim : w.fs.limit p = none)
     (hh : (humanRep cfg.flags reps).bytes ≠ []) (hj : (jsonRep cfg.flags reps).bytes ≠ []) :
@@ -296,47 +304,85 @@ theorem same_path_clobbers (p : Path)
     (((w.fs.set p (.file [])).set p (.file [])).set p (.file (writeAt [] 0 (humanRep cfg.flags reps).bytes)))
     ⟨p, 0⟩ (writeAt [] 0 (humanRep cfg.flags reps).bytes) _ (by simp) hlim hj
   simp only [run, hmd, b2n, hgn, hlog, openOpt, humanOn, jsonOn, hc, hd, hout, hcp, emitReports, openPrimary,
-    afterOpen, writeReports, writeJson, emitIf, emit, emitFile, hc1, hc2, hw1, hw2,
+    afterOpen, writeReports, writeJson, emitIf, emit, emitFile, hc1, hc2, hw1, hw2, hlu, doneThen_file, done_none,
     Bool.false_eq_true, if_false, if_true, Nat.add_zero, Bool.not_true, Bool.and_false,
     Bool.true_or, Bool.not_false]
   refine ⟨rfl, ?_⟩
   simp [writeAt_zero]
 
-/-- **C20.io.10 (finding D3)** `swallowed_flush`: the report goes to standard output (no `--output-file`),
-    standard output can take `c` bytes (a file on a disk that fills up, RLIMIT_FSIZE, …) and the
-    shortfall lies entirely in the bytes the printer left in standard output's `LineWriter`
-    (`pend` > 0: every JSON report — it does not end in a newline): the flush at process exit fails,
-    its result is ignored, and the tool exits with status 0 and NO diagnostic although only the first
-    `c` bytes of the report arrived. -/
-theorem swallowed_flush (c : Nat)
+/-- **C20.io.10** `final_flush_checked` (finding D3, repaired by 433988c `output.flush()?`): the report
+    goes to standard output (no `--output-file`), standard output can take `c` bytes (a file on a disk
+    that fills up, RLIMIT_FSIZE, …) and the shortfall lies entirely in the bytes the printer left in
+    standard output's `LineWriter` (`pend` > 0: every JSON report — it does not end in a newline). The
+    explicit flush before `Ok(())` now reports it: status 1 and `Error: …` (status 0 and silence only for
+    a broken pipe); the first `c` bytes stay written — a primary that fails itself keeps what it
+    accepted. Before the fix this was status 0 without a diagnostic. -/
+theorem final_flush_checked (c : Nat)
     (hacc : exitOf cfg.flags .ok = 0) (hcy : cfg.flags.cyborg = false) (hmd : cfg.helpMarkdown = false)
-    (hlog : cfg.logFile = none) (hout : cfg.outputFile = none)
+    (hlu : cfg.localUnsupported = false) (hlog : cfg.logFile = none) (hout : cfg.outputFile = none)
     (he : w.stdout.out = [] ∧ w.stdout.buf = []) (hcap : w.stdout.cap = some c)
     (hfit : (soleRep cfg.flags reps).bytes.length
               - min (soleRep cfg.flags reps).pend (soleRep cfg.flags reps).bytes.length ≤ c)
     (hshort : c < (soleRep cfg.flags reps).bytes.length) :
-    (run render cfg .ok reps w).exit = 0 ∧
     (run render cfg .ok reps w).world.stdout.out = (soleRep cfg.flags reps).bytes.take c ∧
-    (run render cfg .ok reps w).world.stdout.out ≠ (soleRep cfg.flags reps).bytes ∧
-    (run render cfg .ok reps w).world.stderr = w.stderr := by
-  rw [run_sole_stdout render cfg reps w hacc hcy hmd hlog hout]
-  obtain ⟨h1, h2⟩ := stdout_write_fits w.stdout (soleRep cfg.flags reps) c he hcap hfit
+    (w.stdout.kind = .other →
+      (run render cfg .ok reps w).exit = 1 ∧ (run render cfg .ok reps w).world.stderr = w.stderr ++ [.ioError]) ∧
+    (w.stdout.kind = .brokenPipe →
+      (run render cfg .ok reps w).exit = 0 ∧ (run render cfg .ok reps w).world.stderr = w.stderr) := by
+  rw [run_sole_stdout render cfg reps w hacc hcy hmd hlu hlog hout]
+  obtain ⟨h1, h2, h3⟩ := stdout_write_then_flush w.stdout (soleRep cfg.flags reps) c he hcap hfit
+  rw [if_neg (by omega)] at h2
   rw [h1]
-  refine ⟨rfl, ?_, ?_, rfl⟩
-  · simpa using h2
-  · simp only [done_none, finish_stdout]
-    rw [h2]
-    intro h
-    have := congrArg List.length h
-    rw [List.length_take] at this
-    omega
+  simp only [doneThen, finishOk, flushPrimary, h2, done_some]
+  refine ⟨by simpa using h3, ?_, ?_⟩
+  · intro hkk; rw [hkk]; exact ⟨rfl, rfl⟩
+  · intro hkk; rw [hkk]; exact ⟨rfl, rfl⟩
 
-/-- … whereas a shortfall before the pending tail IS detected: status 1, `Error: …` on standard error,
-    and the first `c` bytes of the report on standard output (a primary that fails itself keeps what
-    it accepted). With a broken pipe instead (`kind = brokenPipe`): status 0 and no diagnostic. -/
+/-- **C20.io.10b** the positive side: with standard output as the primary (any capacity, errors other
+    than a broken pipe), status 0 means the COMPLETE report arrived — "exits with status 0 having
+    written to its primary output exactly the report". -/
+theorem stdout_exit0_complete
+    (hacc : exitOf cfg.flags .ok = 0) (hcy : cfg.flags.cyborg = false) (hmd : cfg.helpMarkdown = false)
+    (hlu : cfg.localUnsupported = false) (hlog : cfg.logFile = none) (hout : cfg.outputFile = none)
+    (he : w.stdout.out = [] ∧ w.stdout.buf = []) (hkind : w.stdout.kind = .other)
+    (h0 : (run render cfg .ok reps w).exit = 0) :
+    (run render cfg .ok reps w).world.stdout.out = (soleRep cfg.flags reps).bytes := by
+  cases hcap : w.stdout.cap with
+  | none =>
+    have := stdout_exact render cfg .ok reps w hout hcap he hmd h0
+    rw [this]
+    -- the prescription for a non-cyborg command line is the sole report
+    rw [exitOf_eq] at hacc
+    by_cases hgn : groupCount cfg.flags > 1
+    · rw [if_pos hgn] at hacc; cases hacc
+    unfold primaryBytes soleRep
+    cases hd : cfg.flags.dump with
+    | true => simp
+    | false =>
+      cases hj : cfg.flags.json <;> simp [humanOn, jsonOn, hcy, hd, hj]
+  | some c =>
+    rw [run_sole_stdout render cfg reps w hacc hcy hmd hlu hlog hout] at h0 ⊢
+    by_cases hfit : (soleRep cfg.flags reps).bytes.length
+        - min (soleRep cfg.flags reps).pend (soleRep cfg.flags reps).bytes.length ≤ c
+    · obtain ⟨h1, h2, h3⟩ := stdout_write_then_flush w.stdout (soleRep cfg.flags reps) c he hcap hfit
+      rw [h1] at h0 ⊢
+      by_cases hle : (soleRep cfg.flags reps).bytes.length ≤ c
+      · rw [if_pos hle] at h2
+        simp only [doneThen, finishOk, flushPrimary, h2, done_none, finish_stdout]
+        rw [h3, List.take_of_length_le hle]
+      · rw [if_neg hle] at h2
+        simp only [doneThen, finishOk, flushPrimary, h2, done_some, hkind] at h0
+        cases h0
+    · obtain ⟨h1, _⟩ := stdout_write_overflow w.stdout (soleRep cfg.flags reps) c he hcap (by omega)
+      rw [h1, hkind] at h0
+      cases h0
+
+/-- … whereas a shortfall before the pending tail was always detected: status 1, `Error: …` on standard
+    error, and the first `c` bytes of the report on standard output. With a broken pipe instead
+    (`kind = brokenPipe`): status 0 and no diagnostic. -/
 theorem stdout_failure_detected (c : Nat)
     (hacc : exitOf cfg.flags .ok = 0) (hcy : cfg.flags.cyborg = false) (hmd : cfg.helpMarkdown = false)
-    (hlog : cfg.logFile = none) (hout : cfg.outputFile = none)
+    (hlu : cfg.localUnsupported = false) (hlog : cfg.logFile = none) (hout : cfg.outputFile = none)
     (he : w.stdout.out = [] ∧ w.stdout.buf = []) (hcap : w.stdout.cap = some c)
     (hover : c < (soleRep cfg.flags reps).bytes.length
               - min (soleRep cfg.flags reps).pend (soleRep cfg.flags reps).bytes.length) :
@@ -345,10 +391,10 @@ theorem stdout_failure_detected (c : Nat)
       (run render cfg .ok reps w).exit = 1 ∧ (run render cfg .ok reps w).world.stderr = w.stderr ++ [.ioError]) ∧
     (w.stdout.kind = .brokenPipe →
       (run render cfg .ok reps w).exit = 0 ∧ (run render cfg .ok reps w).world.stderr = w.stderr) := by
-  rw [run_sole_stdout render cfg reps w hacc hcy hmd hlog hout]
+  rw [run_sole_stdout render cfg reps w hacc hcy hmd hlu hlog hout]
   obtain ⟨h1, h2⟩ := stdout_write_overflow w.stdout (soleRep cfg.flags reps) c he hcap hover
   rw [h1]
-  refine ⟨by simpa using h2, ?_, ?_⟩
+  refine ⟨by simpa [doneThen] using h2, ?_, ?_⟩
   · intro hk; rw [hk]; exact ⟨rfl, rfl⟩
   · intro hk; rw [hk]; exact ⟨rfl, rfl⟩
 
@@ -399,6 +445,45 @@ theorem processing_failure_truncates (p : Path)
     · rw [Fs.set_entry_other _ _ _ _ hpe]; simp
   · have hc2 := create_regular hreg
     simp only [hc, if_false, openPrimary, hc2, afterOpen, hd, Bool.false_eq_true,
+      finish_exit, finish_fs, finish_stdout, logErr_stdout, logErr_none_fs]
+    exact ⟨trivial, by simp, fun h => h.elim, trivial⟩
+
+/-- **C20.io.12b** the debuginfo rule (finding D6, repaired by fb88910): `--use-local-debuginfo` on a
+    processable dump whose CPU the debuginfo provider does not support — same shape as C20.io.12: — "what is on disk when processing later fails?": both files are
+    created (TRUNCATED) before the dump is processed, so a file that is readable but cannot be
+    processed (accepted options, not `--dump`) leaves the `--output-file` and the `--cyborg` file
+    EMPTY, whatever they held before; status 1, nothing on standard output. -/
+theorem local_debuginfo_unsupported_fails (p : Path) (hlu : cfg.localUnsupported = true)
+    (hacc : exitOf cfg.flags .ok = 0) (hd : cfg.flags.dump = false) (hmd : cfg.helpMarkdown = false)
+    (hlog : cfg.logFile = none) (hout : cfg.outputFile = some p) (hreg : Regular w.fs p)
+    (hcy : cfg.flags.cyborg = true → Regular w.fs cfg.cyborgPath) :
+    (run render cfg .ok reps w).exit = 1 ∧
+    (run render cfg .ok reps w).world.fs.entry p = .file [] ∧
+    (cfg.flags.cyborg = true → (run render cfg .ok reps w).world.fs.entry cfg.cyborgPath = .file []) ∧
+    (run render cfg .ok reps w).world.stdout = w.stdout.atExit := by
+  rw [exitOf_eq] at hacc
+  by_cases hgn : groupCount cfg.flags > 1
+  · rw [if_pos hgn] at hacc; cases hacc
+  rw [if_neg hgn] at hacc
+  by_cases hp : (cfg.flags.pretty && !jsonOn cfg.flags) = true
+  · rw [if_pos hp] at hacc; cases hacc
+  rw [if_neg hp] at hacc
+  by_cases hb : (cfg.flags.brief && !(humanOn cfg.flags || cfg.flags.dump)) = true
+  · rw [if_pos hb] at hacc; cases hacc
+  simp only [run, hmd, b2n, hgn, hlog, openOpt, hp, hb, hout, emitReports,
+    Bool.false_eq_true, if_false, Nat.add_zero]
+  by_cases hc : cfg.flags.cyborg = true
+  · have hc1 := create_regular (hcy hc)
+    have hreg1 : Regular (w.fs.set cfg.cyborgPath (.file [])) p := regular_set_file _ _ _ _ hreg
+    have hc2 := create_regular hreg1
+    simp only [hc, if_true, hc1, openPrimary, hc2, afterOpen, hd, hlu, Bool.false_eq_true, if_false,
+      finish_exit, finish_fs, finish_stdout, logErr_stdout, logErr_none_fs]
+    refine ⟨trivial, by simp, fun _ => ?_, trivial⟩
+    by_cases hpe : cfg.cyborgPath = p
+    · rw [hpe]; simp
+    · rw [Fs.set_entry_other _ _ _ _ hpe]; simp
+  · have hc2 := create_regular hreg
+    simp only [hc, if_false, if_true, openPrimary, hc2, afterOpen, hd, hlu, Bool.false_eq_true,
       finish_exit, finish_fs, finish_stdout, logErr_stdout, logErr_none_fs]
     exact ⟨trivial, by simp, fun h => h.elim, trivial⟩
 
@@ -460,7 +545,7 @@ def exReps : Reports :=
 def exWorld : World := ⟨exFs, ⟨[], [], none, .other⟩, []⟩
 def exRender : Diag → Bytes := fun _ => [69, 10]
 def noFlags : Flags := ⟨false, false, false, false, false, false⟩
-def exCfg : Cfg := { flags := noFlags, cyborgPath := "", helpMarkdown := false, outputFile := none, logFile := none, verboseOff := false }
+def exCfg : Cfg := { flags := noFlags, cyborgPath := "", helpMarkdown := false, outputFile := none, logFile := none, verboseOff := false, localUnsupported := false }
 
 -- `--output-file out` over a longer pre-existing file: status 0 and exactly the 2 bytes of the report
 example : (run exRender { exCfg with outputFile := some "out" } .ok exReps exWorld).exit = 0 ∧
@@ -486,13 +571,21 @@ example :
     let cfg := { exCfg with flags := { noFlags with cyborg := true }, cyborgPath := "out", outputFile := some "out" }
     (run exRender cfg .ok exReps exWorld).exit = 0 ∧
     (run exRender cfg .ok exReps exWorld).world.fs.entry "out" = .file [123, 125] := by decide
--- finding D3: `--json` to a standard output that takes 1 of the 2 bytes: status 0, no diagnostic, 1 byte
+-- finding D3 (repaired): `--json` to a standard output that takes 1 of the 2 bytes: the final flush
+-- fails => status 1 with `Error:`; the byte that fitted stays
 example :
     let cfg := { exCfg with flags := { noFlags with json := true } }
     let w : World := ⟨exFs, ⟨[], [], some 1, .other⟩, []⟩
-    exitOf cfg.flags .ok = 0 ∧ (run exRender cfg .ok exReps w).exit = 0 ∧
-    (run exRender cfg .ok exReps w).world.stdout.out = [123] ∧ (run exRender cfg .ok exReps w).world.stderr = [] := by
+    exitOf cfg.flags .ok = 0 ∧ (run exRender cfg .ok exReps w).exit = 1 ∧
+    (run exRender cfg .ok exReps w).world.stdout.out = [123] ∧ (run exRender cfg .ok exReps w).world.stderr = [.ioError] := by
   decide
+-- `--use-local-debuginfo` on a dump of an unsupported CPU: status 1, files created and empty, no report
+example :
+    let cfg := { exCfg with outputFile := some "out", localUnsupported := true }
+    (run exRender cfg .ok exReps exWorld).exit = 1 ∧
+    (run exRender cfg .ok exReps exWorld).world.fs.entry "out" = .file [] ∧
+    (run exRender cfg .ok exReps exWorld).world.stdout.out = [] ∧
+    (run exRender cfg .ok exReps exWorld).world.stderr = [.localDebuginfoError] := by decide
 -- … the human report (ends in a newline, nothing pending) on the same standard output: detected
 example :
     let w : World := ⟨exFs, ⟨[], [], some 1, .other⟩, []⟩
